@@ -243,10 +243,17 @@ def oracle_random(case, rec):
         rec.cls('rounding-level ripple on plateaus')
     x = gens.relayout(x, case.get('layout', 'C'))     # the routines receive x.copy() - see below - or the view itself
     rec.cls('layout=' + case.get('layout', 'C'))
-    nt = max(check_extrema(emd, x, case['mode'], case['pad'], case['par'], case['lpo'], case['mpo'], rec), 0)
     if case.get('floor') and dt == 'f8' and case['par']:
-        # refined extrema of a rounding-level ripple are, by nature, sensitive to the last bit: only the structural claims
-        # are asserted here (extrema ordered - above - and an envelope is produced, one value per sample)
+        # refined extrema of a rounding-level ripple are, by nature, sensitive to the last bit (values, and even the number
+        # of padding passes): only the structural claims are asserted here - padded extrema strictly ordered in time, and an
+        # envelope with one finite value per sample
+        try:
+            locs, mags = emd.sift.get_padded_extrema(_arg(x), pad_width=case['pad'], mode=case['mode'], parabolic_extrema=True)
+        except Exception as e:
+            raise Violation('C05/get_padded_extrema/raises/%s/rounding-level-ripple' % type(e).__name__, repr(e))
+        if locs is not None and np.any(np.diff(np.asarray(locs, dtype=float)) <= 0):
+            raise Violation('C05/get_padded_extrema/not-strictly-increasing/rounding-level-ripple', repr(np.asarray(locs)[:12].tolist()))
+        nt = 1 if locs is not None else 0
         try:
             env = emd.sift.interp_envelope(_arg(x), mode=case['which'], interp_method=case['method'],
                                            extrema_opts={'pad_width': max(case['pad'], 1), 'parabolic_extrema': True})
@@ -256,6 +263,7 @@ def oracle_random(case, rec):
             raise Violation('C05/interp_envelope/shape-or-nonfinite/rounding-level-ripple', '')
         rec.cls('family=' + case['sig'].get('family', 'elementwise'))
         return nt > 0
+    nt = max(check_extrema(emd, x, case['mode'], case['pad'], case['par'], case['lpo'], case['mpo'], rec), 0)
     nt += check_envelope(emd, x, case['which'], case['method'], max(case['pad'], 1), case['par'], case['lpo'], case['mpo'], rec,
                          sequence=True)
     if case['pad'] == 0:
